@@ -78,6 +78,7 @@ fn main()
 	assert_eq!(cx.model.ask("ping"), "pong", "Lean model driver does not answer");
 	dispatch(&id, &mut cx);
 	cx.report.model_requests = cx.model.requests;
+	cx.model.flush_samples();
 	std::fs::write(&report_path, cx.report.to_json()).unwrap();
 	let bad = cx.report.disagreements_total + cx.report.oracle_failures_total;
 	eprintln!("harness {id} {tier}: {} evaluations, {} disagreements, {} oracle failures, {:.1}s",
